@@ -195,8 +195,7 @@ def config_ops(cfg):
             if rm is not None:
                 o["rm"] = rm
             ops.append(o)
-    ops.append({"op": "set_dec", "v": cfg["dsep"]})
-    ops.append({"op": "set_thou", "v": cfg["tsep"]})
+    ops += sep_ops(cfg["dsep"], cfg["tsep"])
     if cfg["num"] != (2, True, True) or cfg["always"]:
         ops.append({"op": "set_num_cfg", "d": cfg["num"][0], "rm": cfg["num"][1], "round": cfg["num"][2]})
     if cfg["pct"] != (2, True, True) or cfg["always"]:
